@@ -34,7 +34,8 @@ RULE = ("A case is a history: a list of ops executed in one fresh python subproc
         "- on a private scratch copy of the sources - touch / insert an axiom / delete an item / restore / add an "
         "import to a library file between loads, a ring of theories importing each other (loading one must raise) and "
         "a theory whose third item fails during extension (must raise). Every intermediate load is judged too (it must "
-        "not raise when its limit exists). Classes: fresh-direct (the 43 'fresh process, load(T)' singletons, counted "
+        "not raise when its limit exists). Classes: fresh-direct ('fresh process, load(T)' singletons: all 43 theories "
+        "in the thorough tier, the 17 not above 'real' plus a rotating third of the other 26 in the quick tier; counted "
         "trivial), import-first, load-first, limit, error-recovery, file-change, cycle, broken. Non-trivial: at least "
         "one state-touching op before the final load; distinct by the canonical JSON of the history.")
 ASSUMPTIONS = [
@@ -61,7 +62,7 @@ REPO = harness.REPO
 PY = sys.executable or '/venv/bin/python'
 WORKER = os.path.join(harness.VERIF, 'vlib', 'c12_worker.py')
 MARK = '@@C12@@'
-TIMEOUT = 300
+TIMEOUT = 600
 
 MODULES = ['data.integer', 'data.real', 'prover.omega', 'prover.simplex', 'prover.proofrec', 'prover.z3wrapper',
            'imperative.imp', 'integral.inequality', 'data.expr', 'syntax.parser', 'server.server', 'data.proplogic',
@@ -593,6 +594,7 @@ def run_case(case, H, scratch=None, record=True):
     if res is None or ref is None:
         if not failed:
             H.inconc('worker-timeout')
+            H.sample('!worker-timeout', case)
         if record:
             H.case(case, False, klass)
         return
@@ -695,7 +697,7 @@ def history_strategy():
     @st.composite
     def file_block(draw, target):
         cl = closure(target)
-        d = draw(st.sampled_from(cl))                                  # the file that changes
+        d = draw(st.one_of(st.sampled_from(cl), st.sampled_from(cl[-6:])))   # the file that changes
         users = [t for t in cl if d in closure(t)]                     # target-side theories that see d
         warm = draw(st.sampled_from(users + [target]))
         block = [['load', warm, draw(limit_for(warm))]]
@@ -705,6 +707,10 @@ def history_strategy():
             if kind in ('touch', 'restore'):
                 block.append([kind, d])
             elif kind == 'insert':
+                block.append(['insert', d, draw(st.integers(0, len(CONTENT[d]))), str(draw(st.integers(0, 3)))])
+            elif kind == 'delete' and d not in cl[-6:]:
+                # deleting from a theory deep below the target makes thousands of later items fail to parse (each
+                # with a formatted traceback): minutes per history.  Deep files get an insertion instead.
                 block.append(['insert', d, draw(st.integers(0, len(CONTENT[d]))), str(draw(st.integers(0, 3)))])
             elif kind == 'delete':
                 defs = [i for i, it in enumerate(CONTENT[d]) if it[0].startswith('def') or it[0].startswith('type')]
@@ -763,15 +769,25 @@ def history_strategy():
 
 
 def shards(tier):
-    if tier == 'quick':
-        k, per = 16, 3
-    else:
-        k, per = 48, 31
+    k, per = (16, 3) if tier == 'quick' else (48, 25)
+    big = [t for t in THEORIES if depends_on_real(t)]
+    fresh = [t for t in THEORIES if not depends_on_real(t)] + big
     out = []
     for i in range(k):
-        out.append({'i': i, 'k': k, 'random': per,
-                    'fresh': [t for j, t in enumerate(THEORIES) if j % k == i]})
+        out.append({'i': i, 'k': k, 'random': per, 'tier': tier,
+                    'fresh': [t for j, t in enumerate(fresh) if j % k == i]})
     return out
+
+
+def fresh_for(desc, seed):
+    """fresh-direct singletons of a shard.  thorough: all of them.  quick: every theory that does not sit above
+    'real', and a third of those that do (they all take the same path through the lazy import of data.real);
+    which third rotates with the run's seed (main passes seed*1000 + shard index)."""
+    if desc.get('tier') != 'quick':
+        return list(desc['fresh'])
+    big = [t for t in THEORIES if depends_on_real(t)]
+    base = seed // 1000
+    return [t for t in desc['fresh'] if t not in big or big.index(t) % 3 == base % 3]
 
 
 def valid_case(case):
@@ -784,7 +800,7 @@ def valid_case(case):
 
 
 def run_shard(desc, seed, tier, H):
-    cases = [{'ops': [], 'final': [t, None]} for t in desc['fresh']]
+    cases = [{'ops': [], 'final': [t, None]} for t in fresh_for(desc, seed)]
     drawn = []
     seen = set()
 
@@ -818,6 +834,8 @@ def run_shard(desc, seed, tier, H):
                 H.note('generated_case_invalid')
     finally:
         scratch.close()
+    if desc.get('tier') != 'quick' and desc['i'] == 0:
+        H.mark_exhaustive("the empty history ('fresh process, load_theory(T)') for every theory T of the library")
     import resource
     ru = resource.getrusage(resource.RUSAGE_CHILDREN)
     H.note('child_cpu_seconds', int(ru.ru_utime + ru.ru_stime))
